@@ -191,16 +191,18 @@ impl<'a, R: RealNumberInternalTrait> Interpreter<'a, R> {
             Box::new(native::write::library_map),
         ));
         self.register_library_factory(
-            LibraryFactory::from_char_stream(
+            LibraryFactory::from_token_stream(
                 &library_name!("scheme", "base"),
-                include_str!("library/include/scheme/base.sld").chars(),
+                Lexer::from_char_stream(include_str!("library/include/scheme/base.sld").chars())
+                    .without_locations(),
             )
             .unwrap(),
         );
         self.register_library_factory(
-            LibraryFactory::from_char_stream(
+            LibraryFactory::from_token_stream(
                 &library_name!("scheme", "write"),
-                include_str!("library/include/scheme/write.sld").chars(),
+                Lexer::from_char_stream(include_str!("library/include/scheme/write.sld").chars())
+                    .without_locations(),
             )
             .unwrap(),
         );
